@@ -19,6 +19,7 @@ import (
 	"os"
 	"os/exec"
 	"strconv"
+	"strings"
 	"syscall"
 	"time"
 )
@@ -388,6 +389,10 @@ func c16Record(tr, out *ndWriter, idx int, o *c16Out) {
 	tr.put(map[string]interface{}{"ev": "run", "kind": o.Kind, "dir": o.Dir, "off": o.Off, "cls": o.Cls, "outcome": o.Outcome, "correct": o.Correct})
 	res := &Result{Case: idx, Class: o.Kind + ":" + o.Dir + ":" + o.Cls + ":" + o.Outcome}
 	res.Nontrivial = o.Outcome != "value" || o.Cls == "result"
+	if o.Outcome == "crash" && strings.HasPrefix(o.Detail, "garbler panic:") {
+		// neither an error, nor an aborted stall, nor the correct value: the garbler's own code panics on what it received
+		res.viol("garbler-panics:"+o.Kind+":"+o.Dir+":"+o.Cls, "%s session, %s byte %d (field %s) xor %#x (burst %d): %s", o.Kind, o.Dir, o.Off, o.Cls, o.Mask, o.Burst, o.Detail)
+	}
 	if o.Outcome == "value" && o.Correct == 0 {
 		res.viol("wrong-value:"+o.Kind+":"+o.Dir+":"+o.Cls, "%s session, %s byte %d (field %s) xor %#x (burst %d): %s", o.Kind, o.Dir, o.Off, o.Cls, o.Mask, o.Burst, o.Detail)
 	}
